@@ -334,7 +334,6 @@ func (idx *IVFIndex) Remove(vector VectorNode) error {
 	}
 	alreadyDeleted := idx.deletedNodes.Contains(id)
 	idx.mu.RUnlock()
-	verifPoint("ivf:remove:window")
 
 	// Fast-fail validation outside of write lock
 	if !exists {
